@@ -394,3 +394,34 @@ def rule_return_arity(ctx):
                 r.ok(f.qualname, nontrivial=False)
     r.floor(n, 8, "solvers with a values-only switch")
     return r
+
+
+def rule_adjoint_distinct(ctx):
+    r = RuleResult(
+        "adjoint-distinct",
+        "a scipy LinearOperator subclass that implements `_rmatvec` (the action of the adjoint) with a body identical to `_matvec` "
+        "claims A^H = A; for an operator whose stored state can be complex (a scalar factor, tensor data) that only holds if the "
+        "state is conjugated: `_rmatvec` must differ from `_matvec` by a conjugation / transposition of what the operator stores",
+    )
+    n = 0
+    for m in ctx.prog.modules.values():
+        if not m.name.startswith("quimb."):
+            continue
+        for c in m.classes.values():
+            if not any("LinearOperator" in (src_of(b) or "") for b in c.node.bases):
+                continue
+            mv, rmv = c.methods.get("_matvec"), c.methods.get("_rmatvec")
+            if mv is None or rmv is None or mv.cls is not c or rmv.cls is not c:
+                continue
+            n += 1
+            same = [ast.dump(x) for x in mv.node.body] == [ast.dump(x) for x in rmv.node.body]
+            conj = any(isinstance(x, ast.Call) and (dotted(x.func) or "").split(".")[-1] in ("conj", "conjugate", "dag") for x in ast.walk(rmv.node)) \
+                or any(isinstance(x, ast.Attribute) and x.attr in ("H", "conj") for x in ast.walk(rmv.node))
+            q = f"{c.name}._rmatvec"
+            if same and not conj:
+                r.bad(Finding("adjoint-distinct", q, "`_rmatvec` is identical to `_matvec`: the adjoint of an operator with a complex state (e.g. a complex scalar factor) is "
+                                                     "returned without conjugation", where=f"{m.relpath}:{rmv.lineno}", operand="identical"))
+            else:
+                r.ok(q, sample={"class": c.name, "adjoint": "conjugates" if conj else "differs from _matvec"})
+    r.floor(n, 1, "LinearOperator subclasses implementing both _matvec and _rmatvec")
+    return r
